@@ -45,12 +45,12 @@ func (r *Rng) Perm(n int) []int {
 type Case struct {
 	Name         string                `json:"name"`
 	Edges        [][]string            `json:"edges"`
-	P1           string                `json:"p1"`        // greedy | greedyrnd | dfs
-	P2           string                `json:"p2"`        // ns | lp
-	P4           string                `json:"p4"`        // sink | valign | packright | ns | bk | bk0..bk3
+	P1           string                `json:"p1"`           // greedy | greedyrnd | dfs
+	P2           string                `json:"p2"`           // ns | lp
+	P4           string                `json:"p4"`           // sink | valign | packright | ns | bk | bk0..bk3
 	P3           string                `json:"p3,omitempty"` // "" (weighted median) | noop
-	P5           string                `json:"p5"`        // polyline | straight | ortho | splines | noop
-	SizeMode     string                `json:"size_mode"` // none | fixed | map | fixedmap
+	P5           string                `json:"p5"`           // polyline | straight | ortho | splines | noop
+	SizeMode     string                `json:"size_mode"`    // none | fixed | map | fixedmap
 	FixedW       float64               `json:"fixed_w"`
 	FixedH       float64               `json:"fixed_h"`
 	Sizes        map[string][2]float64 `json:"sizes,omitempty"`
